@@ -166,7 +166,7 @@ PROPS["C15"] = {
 
 PROPS["C19"] = {
     "jobs": [
-        {"name": "product", "pkg": "./c19", "run": "^(TestExhaustiveProduct|TestSplitLines|TestWriteFromPackageNamedLog)$", "timeout": T(600, 3600)},
+        {"name": "product", "pkg": "./c19", "run": "^(TestExhaustiveProduct|TestSplitLines|TestWriteFromPackageNamedLog|TestDeepWrappers)$", "timeout": T(600, 3600)},
         {"name": "sequences", "pkg": "./c19", "run": "^TestRapidSequences$", "rapid": T(5000, 150000), "shards": T(1, 16), "replay": "^TestReplay$"},
     ],
     "assumptions": ["the expected site is captured by runtime.Callers on the same source line as the statement under test (the generated call sites are one line each and gofmt-stable)",
